@@ -97,7 +97,8 @@ class NetSim(BaseEngine):
                 'sleep_time': pick(rng, (1e-4, 1e-3, 1e-2, 0.5)),
                 'start_time': pick(rng, (0.0, 100.0, 1.7e9)),
                 'host': pick(rng, HOSTS), 'port': pick(rng, PORTS + (rng.randint(1, 65535),)),
-                'epipe_after': rng.randrange(2), 'first_fd': pick(rng, (10, 10, 10, 3, 0))}
+                'epipe_after': rng.randrange(2), 'first_fd': pick(rng, (10, 10, 10, 3, 0)),
+                'autoreset': rng.random() < 0.15}
         if scn == 1:
             types = pick(rng, (model.ALL_TYPES, model.NON_RT_TYPES, ('sysex', 'note_on', 'clock'),
                                model.CHANNEL_TYPES))
@@ -448,6 +449,11 @@ class NetSim(BaseEngine):
             conn, (chost, cport) = lst.accept()
             port = msock.SocketPort(chost, cport, conn=conn)
         port._socket.net_epipe_after = plan['epipe_after']
+        if plan.get('autoreset'):
+            # the application wants the reset burst on close (public attribute of every output port); when the
+            # port notices the hang-up, that burst goes to a peer that is no longer there
+            port.autoreset = True
+            stats['fault:autoreset_on_socket_port'] += 1
         pipe = raw.tx            # bytes flowing to the port under test
         data = bytes(stream[:c])
         pipe.inflight += data
@@ -466,13 +472,20 @@ class NetSim(BaseEngine):
             left -= k
         t += plan['fin_dt']
         rst = plan['end'] == 'rst'
+        gone = bool(plan.get('autoreset'))
         if rst:
-            net.at(t, lambda: net.reset(pipe))
+            def do_rst():
+                net.reset(pipe)
+                if gone:
+                    raw.really_closed = True
+            net.at(t, do_rst)
             stats['fault:rst'] += 1
         else:
             def fin():
                 pipe.fin_sent = True
                 net.deliver(pipe)
+                if gone:
+                    raw.really_closed = True      # closed for good, not only its sending half
             net.at(t, fin)
             stats['fault:fin'] += 1
         clock.last_event = max(clock.last_event, t)
@@ -560,6 +573,9 @@ class NetSim(BaseEngine):
                 raise Violation('send-never-returned', 'send() on an open socket port did not return')
         closer, other = (client, sconn) if plan['closer'] == 'client' else (sconn, client)
         to_other = a2b_snap if closer is client else b2a_snap
+        if plan.get('autoreset'):
+            other.autoreset = True
+            stats['fault:autoreset_on_socket_port'] += 1
         if plan['reader_before_close'] and plan['consumer'] in ('poll', 'iter_pending'):
             # the other side reads a little before the close happens
             clock.now += plan['latency']
